@@ -49,6 +49,11 @@ objs=[dot(grad(f),grad(v))*dx(degree=1) + f*dot(grad(f),grad(v))*dx(degree=3)]''
     _c("c11_expression_shared_between_rules", '''
 m=mesh("triangle"); V=space(m,"P",2); v=TestFunction(V); f=Coefficient(V); g=Coefficient(V)
 objs=[(f*g+1.0)*v*dx(degree=1) + (f*g+1.0)*(f*g+1.0)*v*dx(degree=5)]'''),
+    _c("c11_vertex_scheme_on_facets_next_to_other_rules", '''
+m=mesh("tetrahedron"); V=space(m,"P",1); u,v=TrialFunction(V),TestFunction(V); f=Coefficient(V)
+m2=mesh("triangle"); V2=space(m2,"P",2); v2=TestFunction(V2); g=Coefficient(V2)
+objs=[f*u*v*ds + f*f*u*v*ds(scheme="vertex", degree=1), f*u*v*ds(scheme="vertex", degree=1) + f*f*u*v*ds(degree=3) + u*v*ds(1, scheme="vertex", degree=1),
+      g*v2*ds(degree=3) + g*g*v2*ds(scheme="vertex", degree=1), avg(g)*avg(v2)*dS(degree=2) + g('+')*v2('-')*dS(scheme="vertex", degree=1)]'''),
     _c("c11_vertex_scheme_cells", '''
 m=mesh("quadrilateral"); V=space(m,"Q",1); u,v=TrialFunction(V),TestFunction(V)
 m3=mesh("tetrahedron"); V3=space(m3,"P",1); u3,v3=TrialFunction(V3),TestFunction(V3)
